@@ -550,8 +550,83 @@ static void make_leaves(void)
 	mk_leaves[2] = v_strz("s");
 }
 
+/* ---- the printf-style variants with a literal '%' in the path: "%%" in the format stands for one
+ * '%' (documented printf behaviour), with and without a real conversion next to it ---- */
+static void fam_percent(void)
+{
+	static const char *doc = "{\"c%d\":1,\"100%\":[1,{\"%\":2}],\"%\":{\"%%\":null,\"%s\":[]},\"a\":3}";
+	static const char *ptrs[] = {"/c%d", "/100%", "/100%/0", "/100%/1/%", "/100%/-", "/100%/2", "/%", "/%/%%", "/%/%s", "/%/%s/0", "/%/x%", "/a", "/a%", "/c%%d", "/%%", ""};
+	for (unsigned pi = 0; pi < sizeof ptrs / sizeof ptrs[0]; pi++)
+		for (int form = 0; form < 2; form++)
+		{
+			snprintf(cur_ptr, sizeof cur_ptr, "%s", ptrs[pi]);
+			cur_op = form ? "getf/setf(\"%%\" doubled + %s)" : "getf/setf(\"%%\" doubled)";
+			cur_tree = NULL;
+			if (!mc_case_begin())
+				continue;
+			/* the format: every '%' of the pointer doubled; form 1 moves the last reference token into a %s argument */
+			char fmt[128], arg[64] = "";
+			const char *cut = form ? strrchr(ptrs[pi], '/') : NULL;
+			size_t upto = cut ? (size_t)(cut - ptrs[pi]) + 1 : strlen(ptrs[pi]);
+			size_t k = 0;
+			for (size_t i = 0; i < upto; i++)
+			{
+				if (ptrs[pi][i] == '%')
+					fmt[k++] = '%';
+				fmt[k++] = ptrs[pi][i];
+			}
+			fmt[k] = 0;
+			if (cut)
+			{
+				strcat(fmt, "%s");
+				snprintf(arg, sizeof arg, "%s", cut + 1);
+			}
+			else if (form)
+				continue;
+			struct json_object *o = json_tokener_parse(doc), *r1 = (void *)0x11, *r2 = (void *)0x22;
+			MC_COUNT("calls", 4);
+			errno = mc_errno_pre;
+			int rc1 = json_pointer_get(o, ptrs[pi], &r1);
+			int e1 = errno;
+			errno = mc_errno_pre;
+			int rc2 = cut ? json_pointer_getf(o, &r2, fmt, arg) : json_pointer_getf(o, &r2, fmt);
+			int e2 = errno;
+			if (rc1 != rc2 || (rc1 == 0 && r1 != r2) || (rc1 != 0 && e1 != e2))
+				mc_violation("getf-differs-from-get", "getf(\"%s\"%s%s) gives rc %d errno %d; get(\"%s\") gives rc %d errno %d%s", fmt, cut ? ", " : "", arg, rc2, rc2 ? e2 : 0, ptrs[pi], rc1,
+				             rc1 ? e1 : 0, rc1 == 0 && rc2 == 0 && r1 != r2 ? " (another node)" : "");
+			/* set: the same value through both entry points on two copies of the document */
+			struct json_object *oa = json_tokener_parse(doc), *ob = json_tokener_parse(doc);
+			struct json_object *va = json_object_new_string("new"), *vb = json_object_new_string("new");
+			int sa = json_pointer_set(&oa, ptrs[pi], va);
+			int sb_ = cut ? json_pointer_setf(&ob, vb, fmt, arg) : json_pointer_setf(&ob, vb, fmt);
+			sb_t da = {0}, db = {0};
+			vf_dump(oa, &da, 0);
+			vf_dump(ob, &db, 0);
+			if (sa != sb_ || strcmp(sb_str(&da), sb_str(&db)))
+				mc_violation("setf-differs-from-set", "setf(\"%s\"%s%s) gives rc %d and %.150s; set(\"%s\") gives rc %d and %.150s", fmt, cut ? ", " : "", arg, sb_, sb_str(&db), ptrs[pi], sa,
+				             sb_str(&da));
+			sb_free(&da);
+			sb_free(&db);
+			if (sa)
+				json_object_put(va);
+			if (sb_)
+				json_object_put(vb);
+			json_object_put(oa);
+			json_object_put(ob);
+			json_object_put(o);
+			if (vf_live())
+			{
+				mc_violation("leak-after-set", "%ld blocks live", vf_live());
+				mc_restart_worker();
+			}
+			mc_nontrivial(mc_hash_str(fmt));
+			mc_sample_current();
+		}
+}
+
 static void enumerate(void)
 {
+	fam_percent();
 	gen_strings();
 	struct vfam f = {.width = 2, .leaves = mk_leaves, .nleaves = 3, .keys = K12, .nkeys = NK12, .dup_keys = 0};
 	vfam_init(&f, 1);
@@ -654,6 +729,13 @@ static int replay(const char *desc)
 	size_t n = 0, pl = 0;
 	long val = 0;
 	char op[32] = "get";
+	if (strstr(desc, "op=getf/setf("))
+	{
+		/* the percent family is small: replay re-runs it */
+		mc_case_begin_all();
+		fam_percent();
+		return (int)mc_violations();
+	}
 	gen_strings();
 	if (!mc_desc_hex(desc, "doc", docbuf2, sizeof docbuf2, &n))
 		return -1;
